@@ -535,3 +535,11 @@ def c09_reparametrise(ctx, dim):
     ctx.ensure("action on points: re-parametrised == fresh", and_(eq(used.call_array(X), fresh.call_array(X)), eq(used.inverse_array(X), fresh.inverse_array(X))))
     used.set_parameters(np.array(t), s, np.zeros(nrot))
     ctx.ensure("setting a zero rotation afterwards gives the pure scaling + translation", eq(used.call_array(X), s * X + np.array(t)[None, :]))
+
+
+@ob("C09.dep_scipy", kind="B", samples=(2, 6), funcs=[], tol=1e-12, cite="(validation of assumed dependency contracts)",
+    note="the Rotation.from_rotvec stub (structure of the matrix, sign convention, the only constraint c^2 + s^2 = 1) and Powell's monotonicity against the installed scipy")
+def c09_dep_scipy(ctx):
+    from contracts import deps_validation as dv
+    dv.dep_rotation(ctx)
+    dv.dep_minimize(ctx)
